@@ -182,7 +182,7 @@ CHECKS = {
                 "the constructor accepts exactly the layouts in which no two names share a grid; for an accepted layout every table grid is found "
                 "under a name that maps back to it; the bounding box contains every site and each side is attained (non-negative spacings). "
                 "Correspondence: all pairs of ~70/400 layouts with every field varied independently, constructor acceptance, get_zone_id of every "
-                "pool grid, bounding_box; all pairs/triples for the laws on the implementation; every layout returned by the library builders. arch.py is also READ from source on every run (harness/gen/arch_reader.py, fail-closed): the fields __eq__ and __hash__ of Layout / ArchSpec look at, how the zone index is built and read; the generated file build/C13/Gen_C13_src.v states they are the tables the model compares and hashes.",
+                "pool grid, bounding_box; all pairs/triples for the laws on the implementation; every layout returned by the library builders. arch.py is also READ from source on every run (harness/gen/arch_reader.py, fail-closed): the fields __eq__ and __hash__ of Layout / ArchSpec look at, how the zone index is built and read; the generated file build/C13/Gen_C13_src.v states they are the tables the model compares and hashes. On every run Layout.__post_init__, get_zone_id and bounding_box (in the sentinel form it is written in) are translated from source (fail-closed) and proved equal to the model's build_index / get_zone_id / bounding_box.",
         "note": NOTE_COMMON + " Known finding recorded: gemini.logical.get_spec extends tables after construction (stale index, duplicate names).",
         "technique": "Coq proofs (equivalence, index invariant, min/max folds over Q) + reflected field tables + vm_compute correspondence",
     },
